@@ -58,7 +58,7 @@ func genHistory(r *Rng, seed uint64, tier string) *C15Spec {
 	np := 1 + r.Intn(4)
 	for i := 0; i < np; i++ {
 		if r.Chance(0.55) {
-			cc := genCharCfg(r, charOpt{small: r.Chance(0.5), budget: 5000, maxLen: 10, maxReq: 4, noEmptied: true})
+			cc := genCharCfg(r, charOpt{small: r.Chance(0.5), budget: 5000, maxLen: 10, maxReq: 4, noEmptied: r.Chance(0.7)})
 			s.Pool = append(s.Pool, PoolEntry{Char: &cc, Ptr: r.Bool()})
 		} else {
 			w := genWLCfg(r, wlOpt{list: listOpt{min: 1, max: 7, twins: 0.2, precap: 0.1, caseless: 0.1, dups: 0.15, emptyWord: 0.08}, maxLen: 4})
@@ -427,7 +427,7 @@ func runC15(c *Ctx, si interface{}) {
 					return
 				}
 			case "entropy":
-				if m.Emptied == 0 && len(m.A) > 0 {
+				if len(m.A) > 0 {
 					want := log2Big(m.Count())
 					if !f32close(res.F, want, entTol(want)) {
 						c.Violate("stale-fields", "", "history [%s]: call %d Entropy() = %v but the current fields %s give %.6f", hist, i, res.F, e.cfgC, want)
@@ -435,7 +435,7 @@ func runC15(c *Ctx, si interface{}) {
 					}
 				}
 			case "sp":
-				if p := m.SuccessProb(); p != nil && m.Emptied == 0 {
+				if p := m.SuccessProb(); p != nil {
 					pf := ratToFloat(p)
 					if math.IsNaN(res.F) || math.Abs(res.F-pf) > 2e-4*pf+1e-7 {
 						c.Violate("stale-fields", "", "history [%s]: call %d SuccessProbability() = %v but the current fields %s give %s", hist, i, res.F, e.cfgC, p.FloatString(8))
